@@ -22,6 +22,9 @@ from .rope import SymBytes, SymStr
 
 VERIF = os.path.dirname(os.path.dirname(os.path.abspath(__file__)))
 NPROC = int(os.environ.get("VERIF_NPROC", "0")) or min(16, os.cpu_count() or 1)
+# runs against another checkout (seeded-mutation trials) must not overwrite the evidence of /repo
+_ALT = os.environ.get("VERIF_REPO") not in (None, "", "/repo")
+OUTDIR = os.path.join("/tmp", "verif_alt_%d" % os.getpid()) if _ALT else VERIF
 
 
 # ------------------------------------------------------------------ concrete mode
@@ -38,7 +41,7 @@ class ConcreteEx:
 
     def _get(self, name):
         if name not in self.given:
-            raise KeyError("replay input %r missing" % name)
+            raise PathAbort("replay input %r missing" % name)
         return self.given[name]
 
     def fresh_int(self, name, lo=None, hi=None):
@@ -139,7 +142,7 @@ Explorer.concrete = False
 # ------------------------------------------------------------------ units
 class Unit:
     def __init__(self, name, sym, real=None, bounds=None, regions=(), split=False, max_paths=200000, max_depth=4000,
-                 expect=None, diff=True, query_timeout_ms=20000):
+                 expect=None, diff=True, query_timeout_ms=20000, budget_s=1500):
         self.name = name
         self.sym = sym  # fn(ex) over module copies
         self.real = real  # fn(ConcreteEx) over the real library (replay + differential); may be None
@@ -150,6 +153,7 @@ class Unit:
         self.max_depth = max_depth
         self.diff = diff and real is not None
         self.query_timeout_ms = query_timeout_ms
+        self.budget_s = budget_s  # wall budget of one exploration task (a subtree); exceeding it is inconclusive
 
 
 _UNITS: list[Unit] = []
@@ -166,15 +170,16 @@ def _explore_task(task):
     u = _UNITS[ui]
     e = Explorer(max_paths=u.max_paths, max_depth=u.max_depth, seed=_SEED, query_timeout_ms=u.query_timeout_ms)
     e.export_limit = export
+    e.budget_s = u.budget_s
     t = time.time()
     try:
         res = e.explore(u.sym, prefixes=prefixes, stop_when_queued=seed_target)
         err = None
     except Unsupported as x:
-        res = []
+        res = e.results  # partial results are kept: violations found so far are still replayed and reported
         err = "Unsupported: %s\n%s" % (x, "".join(traceback.format_tb(x.__traceback__)[-6:]))
     except BaseException as x:  # harness bug
-        res = []
+        res = e.results
         err = "%s: %s\n%s" % (type(x).__name__, x, "".join(traceback.format_tb(x.__traceback__)[-8:]))
     return {"unit": ui, "results": [_res_to_dict(r) for r in res], "error": err, "paths": e.paths, "queries": e.queries,
             "solver_s": e.solver_time, "wall_s": time.time() - t, "hash_attempts": e.hash_attempts, "exported": e.exported,
@@ -258,13 +263,15 @@ def match_known(known, prop, unit_name, label, inputs):
             continue
         if k.get("label") and k["label"] != label:
             continue
+        if k.get("label_contains") and k["label_contains"] not in label:
+            continue
         if k.get("unit_prefix") and not unit_name.startswith(k["unit_prefix"]):
             continue
         w = k.get("where")
         if w:
             try:
-                if not eval(w, {"__builtins__": {"len": len, "abs": abs, "min": min, "max": max, "int": int, "bytes": bytes}},
-                            dict(inputs or {})):
+                if not eval(w, {"__builtins__": {"len": len, "abs": abs, "min": min, "max": max, "int": int, "bytes": bytes, "any": any, "all": all, "sum": sum}},
+                            dict(inputs or {}, inputs=dict(inputs or {}))):
                     continue
             except Exception:
                 continue
@@ -310,10 +317,10 @@ class Outcome:
 
 
 def write_replay(prop, unit, label, inputs, what):
-    os.makedirs(os.path.join(VERIF, "replays"), exist_ok=True)
+    os.makedirs(os.path.join(OUTDIR, "replays"), exist_ok=True)
     body = {"property": prop, "unit": unit, "label": label, "inputs": enc_inputs(inputs), "observed": what}
     dig = hashlib.sha256(json.dumps(body, sort_keys=True).encode()).hexdigest()[:12]
-    path = os.path.join(VERIF, "replays", "%s-%s.json" % (prop, dig))
+    path = os.path.join(OUTDIR, "replays", "%s-%s.json" % (prop, dig))
     with open(path, "w") as f:
         json.dump(body, f, indent=1, sort_keys=True)
     return path
@@ -528,8 +535,8 @@ def check_property(prop, units, tier, seed, *, explanation, assumptions, stubs=(
             "solver": "z3 %s" % z3.get_version_string(), "nproc": NPROC,
         },
     }
-    os.makedirs(os.path.join(VERIF, "evidence"), exist_ok=True)
-    with open(os.path.join(VERIF, "evidence", "%s.json" % prop), "w") as f:
+    os.makedirs(os.path.join(OUTDIR, "evidence"), exist_ok=True)
+    with open(os.path.join(OUTDIR, "evidence", "%s.json" % prop), "w") as f:
         json.dump(evidence, f, indent=1, default=str)
     print("%s %s: %d units, %d paths, %d/%d obligations discharged, %d queries, solver %.1fs, wall %.1fs, diff %d/%d, exit %d"
           % (prop, tier, _b.len(units), total["paths"], total["discharged"], total["obligations"], total["queries"],
